@@ -55,9 +55,13 @@ func c09Scenario(r *vf.Run, t *testing.T, id string, rng *rand.Rand) {
 		offKinds = append(offKinds, kinds[rng.Intn(len(kinds))])
 	}
 	inflight := rng.Intn(2) == 0
+	longHistory := rng.Intn(12) == 0
 	nBefore, nAfter := rng.Intn(3), 1+rng.Intn(2)
 	var triggers []string
-	replay := map[string]any{"offences": offKinds, "frames_in_flight_after_reset": inflight, "before": nBefore, "after": nAfter}
+	if longHistory {
+		inflight = true
+	}
+	replay := map[string]any{"offences": offKinds, "frames_in_flight_after_reset": inflight, "before": nBefore, "after": nAfter, "more_than_256_streams_before": longHistory}
 	failed := false
 	fail := func(rule, detail string) {
 		if !failed {
@@ -109,6 +113,19 @@ func c09Scenario(r *vf.Run, t *testing.T, id string, rng *rand.Rand) {
 			sendGood(newGood(nil))
 		}
 		rt.Wait()
+		if longHistory {
+			// more completed streams than the server remembers as recently closed
+			cnt := 256 + rng.Intn(60)
+			for i := 0; i < cnt; i++ {
+				n := nextStream
+				nextStream++
+				e.P.Write(simpleGet(e.P, uint32(2*n+1), fmt.Sprintf("%s.h%d", id, n)))
+				if i%40 == 39 {
+					rt.Wait()
+				}
+			}
+			rt.Wait()
+		}
 		var inserted []F
 		var parkGates []chan struct{}
 		for oi, kind := range offKinds {
@@ -306,8 +323,16 @@ func c09Scenario(r *vf.Run, t *testing.T, id string, rng *rand.Rand) {
 		// credit for large responses of good streams
 		for iter := 0; iter < 6; iter++ {
 			var out []byte
+			fsNow := e.P.Frames()
 			for _, q := range good {
-				out = append(out, rt.WindowUpdate(q.Stream, 100000)...)
+				// a conforming peer only grants credit on streams it is still receiving on
+				ended := false
+				for _, f := range rt.FramesFor(fsNow, q.Stream) {
+					ended = ended || f.EndStream || f.Type == wire.TRstStream
+				}
+				if !ended {
+					out = append(out, rt.WindowUpdate(q.Stream, 100000)...)
+				}
 			}
 			out = append(out, rt.WindowUpdate(0, 300000)...)
 			e.P.Write(out)
@@ -342,7 +367,7 @@ func c09Scenario(r *vf.Run, t *testing.T, id string, rng *rand.Rand) {
 		e.Finish()
 	})
 	c01Outcome(r, id, res, triggers, replay, "C09")
-	r.Eval(vf.Hash(offKinds, inflight, nBefore, nAfter), true)
+	r.Eval(vf.Hash(offKinds, inflight, nBefore, nAfter, longHistory), true)
 	if r.WantSample() {
 		r.Sample(replay)
 	}
